@@ -113,6 +113,20 @@ fn main() {
         "party A;\ntx t(q: Int) {\n  output { to: A, amount: Ada(1), }\n  validity { since_slot: A + 1, }\n}\n",
         "party A;\n// caf\u{e9}\ntx t(q: Int) {\n  output { to: A, amount: Ada(1), }\n  signers { q + 1, }\n}\n",
     ];
+    // undefined names written with blanks, line breaks or comments around them: the located text is still exactly the name
+    let spaced = [
+        "party A;\ntype R { a: Int, }\ntx t(r: R) {\n  output { to: A, amount: Ada(r . zz), }\n}\n",
+        "party A;\ntype R { a: Int, }\ntx t(r: R) {\n  output { to: A, amount: Ada(r.\n      zz), }\n}\n",
+        "party A;\ntype R { a: Int, }\ntx t(r: R) {\n  output { to: A, amount: Ada(r./* c */zz), }\n}\n",
+        "party A;\ntype R { a: Int, }\ntx t(r: R) {\n  output { to: A, amount: Ada(r .\t zz . yy), }\n}\n",
+        "party A;\ntx t(q: Int) {\n  output { to:   zz  , amount: Ada( qq ), }\n}\n",
+        "party A;\ntx t(q: Int) {\n  output { to: A, amount: Ada(1) + /* caf\u{e9} */ zz, }\n}\n",
+        "party A;\ntype R { a: Int, }\ntx t(q: Int) {\n  output { to: A, amount: Ada(1), datum: R { a: q, } . zz, }\n}\n",
+    ];
+    for (i, src) in spaced.iter().enumerate() {
+        if check_parse_error(src, &format!("spaced[{i}]")) { parse_cases += 1; }
+        analysis_cases += check_analysis(src, &format!("spaced[{i}]")) as u64;
+    }
     for (i, src) in mism.iter().enumerate() {
         if check_parse_error(src, &format!("mismatch[{i}]")) { parse_cases += 1; }
         analysis_cases += check_analysis(src, &format!("mismatch[{i}]")) as u64;
@@ -150,6 +164,13 @@ fn main() {
                         let mutated = format!("{}zz_undefined_{}{}", &src[..st], k, &src[i..]);
                         if check_parse_error(&mutated, &format!("{name}#{k}")) { parse_cases += 1; }
                         analysis_cases += check_analysis(&mutated, &format!("{name}#{k}")) as u64;
+                    }
+                    if st > 0 && bytes[st - 1] == b'.' {
+                        // a property / case name after a dot: undefined AND separated from the dot by blanks or a comment
+                        for sep in [" ", "\n    ", "/* x */"] {
+                            let mutated = format!("{}{}zz_undefined_{}{}", &src[..st], sep, k, &src[i..]);
+                            analysis_cases += check_analysis(&mutated, &format!("{name}#{k} after-dot {sep:?}")) as u64;
+                        }
                     }
                     if k % 2 == 0 {
                         // the occurrence wrapped into a binary expression that ends in a literal: wherever that parses it is
